@@ -17,6 +17,7 @@ pub enum Flavor {
     C02,
     C03,
     C04,
+    C16,
     C19,
 }
 
@@ -29,6 +30,7 @@ impl TermCheck {
             Flavor::C02 => "C02",
             Flavor::C03 => "C03",
             Flavor::C04 => "C04",
+            Flavor::C16 => "C16",
             Flavor::C19 => "C19",
         }
     }
@@ -63,6 +65,23 @@ pub fn exec_stage(sc: &Scenario, prop: &'static str) -> Report {
             }
             if let Some(p) = res.panic {
                 r.violate(&format!("{prop}.no_panic"), format!("op#{} {} panicked: {p}", st.op_idx, op.short()));
+            }
+            if prop == "C16" && r.violation.is_none() {
+                if let Some(t) = st.term.lock().tab_seen.clone() {
+                    r.violate("C16.tab_reached_terminal", format!("op#{} {}: a TAB character reached the terminal inside {t:?}", st.op_idx, op.short()));
+                }
+                for s in st.bars.iter() {
+                    if let Some(h) = s.handles.first() {
+                        let (m, p) = (h.message(), h.prefix());
+                        let (em, ep) = (s.abs.expand(&s.abs.msg), s.abs.expand(&s.abs.prefix));
+                        if m != em || p != ep {
+                            r.violate(
+                                "C16.getter_expansion",
+                                format!("op#{} {}: message()/prefix() = {m:?}/{p:?}, expected the texts with every tab replaced by {} spaces: {em:?}/{ep:?}", st.op_idx, op.short(), s.abs.tab_width),
+                            );
+                        }
+                    }
+                }
             }
             if !res.skipped {
                 executed += 1;
@@ -101,6 +120,23 @@ fn pick_w(rng: &mut Rng, small: bool) -> u64 {
     }
 }
 
+fn new_bar_op_tabs(rng: &mut Rng, kind: u64, id: usize) -> Op {
+    let tag = format!("B{id}");
+    Op::new(if kind == 9 { "new" } else { "add" })
+        .n(kind)
+        .n(0)
+        .n(1)
+        .n(10)
+        .n(rng.below(5))
+        .n(*rng.pick(&[8, 0, 1, 2, 4, 13]))
+        .n(rng.below(24))
+        .s(gen_template(rng, &tag, true))
+        .s(gen_tabbed(rng, "F"))
+        .s(if rng.chance(1, 2) { gen_tabbed(rng, "o") } else { String::new() })
+        .s(gen_tabbed(rng, "m"))
+        .s(gen_tabbed(rng, "p"))
+}
+
 fn new_bar_op(rng: &mut Rng, kind: u64, arg: u64, id: usize, w: usize, special: bool) -> Op {
     let tag = format!("B{id}");
     let mut op = Op::new(if kind == 9 { "new" } else { "add" })
@@ -125,7 +161,29 @@ fn bar_op(rng: &mut Rng, b: u64, w: usize, special: bool, fl: Flavor) -> Op {
         Flavor::C02 | Flavor::C19 => [10, 8, 3, 10, 2, 2, 2, 4, 2, 1, 4, 2, 1, 1],
         Flavor::C03 => [8, 6, 2, 6, 1, 1, 2, 14, 6, 1, 4, 1, 1, 1],
         Flavor::C04 => [8, 10, 4, 6, 1, 1, 2, 3, 1, 2, 10, 4, 2, 3],
+        Flavor::C16 => [4, 2, 1, 10, 8, 8, 1, 1, 1, 1, 6, 2, 2, 0],
     };
+    if fl == Flavor::C16 {
+        // texts with tabs; tab width changes
+        if rng.chance(1, 4) {
+            return Op::new("set_tab_width").n(b).n(*rng.pick(&[0, 1, 2, 4, 8, 13]));
+        }
+        return match rng.weighted(&weights) {
+            0 => Op::new("tick").n(b),
+            1 => Op::new("inc").n(b).n(rng.below(4)),
+            2 => Op::new("set_position").n(b).n(rng.below(120)),
+            3 => Op::new("set_message").n(b).n(0).s(gen_tabbed(rng, "m")),
+            4 => Op::new("set_prefix").n(b).n(0).s(gen_tabbed(rng, "p")),
+            5 => Op::new("set_style").n(b).n(0).s(gen_template(rng, &format!("S{b}"), true)).s(if rng.chance(1, 2) { gen_tabbed(rng, "o") } else { String::new() }),
+            6 => Op::new("set_length").n(b).n(rng.below(200)),
+            7 => Op::new("println").n(b).n(0).s("L"),
+            8 => Op::new("suspend").n(b).n(0).s("U"),
+            9 => Op::new("reset").n(b),
+            10 => Op::new("finish").n(b).n(rng.below(5)).s(gen_tabbed(rng, "f")),
+            11 => Op::new("finish_using_style").n(b),
+            _ => Op::new("force_draw").n(b),
+        };
+    }
     match rng.weighted(&weights) {
         0 => Op::new("tick").n(b),
         1 => Op::new("inc").n(b).n(rng.below(4)),
@@ -161,6 +219,7 @@ impl Check for TermCheck {
             Flavor::C02 => format!("C02 MultiProgress (sequential part): 1..6 bars, add/insert/insert_from_back/insert_before/insert_after/remove, bar updates, finish*/abandon*, drop of handles (clones), bar-level and mp-level println, clear, suspend, top alignment and bottom alignment. {common}"),
             Flavor::C03 => format!("C03 log lines: the C01/C02 generators biased to println (bar and mp level, empty, multi-line, wider than the terminal), suspend with printing closures, finish/drop in every order, remove, clear, and rate limited targets (1..255 Hz) with bursts at one instant so that ordinary draws are skipped while dropped bars wait to be reaped; only violations in which a printed line is missing, duplicated, reordered or overwritten are reported under C03. {common}"),
             Flavor::C04 => format!("C04 finishing: every ProgressFinish variant through explicit calls, with_finish + drop of the last handle (clones dropped in any order), finish_using_style and iterator exhaustion, after histories that exhaust both rate limiters at the finishing instant; standalone and MultiProgress; the forced final frame must be painted and show the final state; visibly finished dropped bars stay until println/clear/suspend/remove. {common}"),
+            Flavor::C16 => format!("C16 tabs: random order of with_tab_width/set_tab_width (0,1,2,4,8,13), with_style/set_style (templates with literal tabs and a custom key whose output contains tabs), with_message/set_message/with_prefix/set_prefix/finish_with_message/abandon_with_message/with_finish(WithMessage)+drop with 0..5 tabs each (the four builder calls in all 24 orders), ticks; additionally no string passed to the terminal may contain a TAB and message()/prefix() must return the text expanded with the current tab width. {common}"),
             Flavor::C19 => format!("C19 geometry: terminal sizes W,H in 1..8 (plus a few larger), MultiProgress with up to 12 bars of 1..3 lines and single bars, histories growing the set of bars past the terminal height and shrinking it again; when the bars need more rows than the terminal has, the region must be the leading lines (or leading whole bars) that fit, nothing of the region may scroll out of reach and later frames must leave no remnant. {common}"),
         }
     }
@@ -185,6 +244,7 @@ impl Check for TermCheck {
         let fl = self.0;
         let multi = match fl {
             Flavor::C01 => false,
+            Flavor::C16 => rng.chance(1, 4),
             Flavor::C02 => true,
             Flavor::C03 | Flavor::C04 => rng.chance(2, 3),
             Flavor::C19 => rng.chance(3, 4),
@@ -211,7 +271,7 @@ impl Check for TermCheck {
             _ => *rng.pick(&[0, 0, 20]),
         };
         sc.set("hz", hz);
-        sc.set("bottom", (multi && rng.chance(1, 4)) as u64);
+        sc.set("bottom", (multi && fl != Flavor::C16 && rng.chance(1, 4)) as u64);
         sc.set("xcheck", rng.chance(1, 8) as u64);
         let special = rng.chance(1, 2);
         let w = w as usize;
@@ -223,7 +283,7 @@ impl Check for TermCheck {
         let mut ops: Vec<Op> = vec![];
         let mut nbars: usize = 0;
         if !multi {
-            ops.push(new_bar_op(rng, 9, 0, 0, w, special));
+            ops.push(if fl == Flavor::C16 { new_bar_op_tabs(rng, 9, 0) } else { new_bar_op(rng, 9, 0, 0, w, special) });
             nbars = 1;
         }
         let burst = matches!(fl, Flavor::C03 | Flavor::C04) && rng.chance(1, 2);
@@ -241,7 +301,7 @@ impl Check for TermCheck {
                 if nbars == 0 || (structural < 14 && nbars < max_bars) {
                     let kind = rng.weighted(&[5, 2, 2, 2, 2]) as u64;
                     let arg = rng.below(5);
-                    ops.push(new_bar_op(rng, kind, arg, nbars, w, special));
+                    ops.push(if fl == Flavor::C16 { new_bar_op_tabs(rng, 0, nbars) } else { new_bar_op(rng, kind, arg, nbars, w, special) });
                     nbars += 1;
                     continue;
                 }
@@ -289,7 +349,7 @@ impl Check for TermCheck {
             ops.push(bar_op(rng, b, w, special, fl));
         }
         // C04: often end by dropping everything, in random order
-        if matches!(fl, Flavor::C04 | Flavor::C03 | Flavor::C02) && rng.chance(1, 2) {
+        if matches!(fl, Flavor::C04 | Flavor::C03 | Flavor::C02 | Flavor::C16) && rng.chance(1, 2) {
             let mut order: Vec<u64> = (0..nbars as u64).collect();
             for i in (1..order.len()).rev() {
                 order.swap(i, rng.usize_below(i + 1));
